@@ -835,6 +835,11 @@ impl CanonicalizeContext {
 					let mn = create_mathml_element(&doc, "mn");
 					mo.set_text("-");
 					mn.set_text(&text[first_char.len_utf8()..]);
+					if let Some(variant) = mathml.attribute_value("mathvariant") {
+						// the typeface belongs to the digits, not to the row that now holds them
+						mn.set_attribute_value("mathvariant", variant);
+						mathml.remove_attribute("mathvariant");
+					}
 					set_mathml_name(mathml, "mrow");
 					mathml.set_attribute_value(CHANGED_ATTR, ADDED_ATTR_VALUE);
 					mathml.replace_children([mo,mn]);
